@@ -790,13 +790,21 @@ theorem step_own {cfg : Cfg} {s s' : State} {op : Op} (hu : op.signer ≠ some c
     | fundReserve => unfold fundReserve at h; invert h; exact ⟨o.own, o.lown, o.bden⟩
     | setPrice a t => simp only [Except.ok.injEq] at h; subst h; unfold setPrice; cases t <;> exact ⟨o.own, o.lown, o.bden⟩
     | setKill a on => simp only [Except.ok.injEq] at h; subst h; exact ⟨o.own, o.lown, o.bden⟩
-    | setDepreciated p => simp only [Except.ok.injEq] at h; subst h; exact ⟨o.own, o.lown, o.bden⟩
+    | setDepreciated p f => simp only [Except.ok.injEq] at h; subst h; exact ⟨o.own, o.lown, o.bden⟩
+    | beginBlock =>
+      obtain ⟨h1, h2, _, _, _, h6⟩ := beginBlock_frame h
+      exact ⟨by rw [h1]; exact o.own, by rw [h6]; exact o.lown, by rw [h2]; exact o.bden⟩
     | handover => exact handover_own h o
     | bid => unfold auctionBid at h; invert h; exact ⟨o.own, o.lown, o.bden⟩
     | auctionClose => exact auctionClose_own h o
 
-theorem step_bal {cfg : Cfg} (ok : CfgOk cfg) {s s' : State} {op : Op} (hu : op.signer ≠ some cfg.reserveAcct) (h : step cfg s op = .ok s')
-    (o : Own cfg s) : BalStep cfg s s' := by
+/-- the block hook of x/lend (it moves pool funds into the reserve without a flow record) -/
+def Op.isBeginBlock : Op → Bool
+  | .beginBlock => true
+  | _ => false
+
+theorem step_bal {cfg : Cfg} (ok : CfgOk cfg) {s s' : State} {op : Op} (hu : op.signer ≠ some cfg.reserveAcct) (hb : op.isBeginBlock = false)
+    (h : step cfg s op = .ok s') (o : Own cfg s) : BalStep cfg s s' := by
   unfold step at h
   split at h
   · cases h
@@ -817,7 +825,8 @@ theorem step_bal {cfg : Cfg} (ok : CfgOk cfg) {s s' : State} {op : Op} (hu : op.
     | fundReserve u => exact fundReserve_bal (fun e => hu (by simp [Op.signer, e])) h
     | setPrice a t => simp only [Except.ok.injEq] at h; subst h; unfold setPrice; cases t <;> exact BalStep.refl _ _
     | setKill a on => simp only [Except.ok.injEq] at h; subst h; exact BalStep.refl _ _
-    | setDepreciated p => simp only [Except.ok.injEq] at h; subst h; exact BalStep.refl _ _
+    | setDepreciated p f => simp only [Except.ok.injEq] at h; subst h; exact BalStep.refl _ _
+    | beginBlock => cases hb
     | handover => exact handover_bal ok h
     | bid u => exact auctionBid_bal ok (fun e => hu (by simp [Op.signer, e])) h
     | auctionClose u => exact auctionClose_bal ok (fun e => hu (by simp [Op.signer, e])) h o
